@@ -1417,8 +1417,22 @@ func lemmaSliceConcat(seq Sequence, c int) Sequence {
 //@   prop C07
 //@ func toQualifier(s string) (f Filter, err error)
 //@   prop C07 C19
+// Selector: every clause between unescaped slashes becomes exactly one conjunct.  andDepth
+// counts the And applications a filter was built with (defined at And, where the closure is
+// created); the loop adds one per clause it shifts off, whatever the clause contains.
+//@ spec func andDepth(f Filter) int uninterpreted
+//@ func And(filters ...Filter) (out Filter)
+//@   prop C19
+//@   define len(filters) == 2 ==> andDepth(out) == andDepth(filters[0]) + 1
+//@   assigns nothing
 //@ func Selector(sel string) (f Filter, err error)
 //@   prop C07 C19
+//@   ghost NC(z int) int
+//@   ghost BASE(z int) int
+//@   loop 1: ghost_init NC(z) := 0
+//@   loop 1: ghost_init BASE(z) := andDepth(filter)
+//@   loop 1: ghost_update NC(z) := NC(z) + 1
+//@   loop 1: invariant andDepth(filter) == BASE(0) + NC(0) && NC(0) >= 0
 
 // An order of leaf parts (the shape the parser and Order produce): the result of an edit owns a
 // fresh part list and nothing is written.  (An order with composite parts may make Order see
